@@ -28,8 +28,12 @@ Definition cli_spec (i : nat) : spec :=
   | 1%nat => SSub [("a b", SEnum ["p q"; "it's"; "semi;colon"; "$HOME"; bs [98;97;99;107;92;115;108;97;115;104]] "it's");
                    (bs [113;117;111;34;116;101], SBool true);
                    ("m", SAnonMap (SInt 3 fone (Some 0%Z) (Some 9%Z)) 2 None (Some 3%nat))]
-  | _ => SSub [("v", SVariant [("a", SConst); ("b", SReal (of_bits 0x3FD0000000000000) (of_bits 0x3FE0000000000000) (Some fzero) None)] "a");
+  | 2%nat => SSub [("v", SVariant [("a", SConst); ("b", SReal (of_bits 0x3FD0000000000000) (of_bits 0x3FE0000000000000) (Some fzero) None)] "a");
                ("o", SOptional (SArray (SBool false) 2) false)]
+  | _ => (* member names: "x" / "xy" followed by 40 times U+00E4 (bytes 195 164) *)
+         let tail := fold_right (fun _ s => String (Ascii.ascii_of_nat 195) (String (Ascii.ascii_of_nat 164) s)) EmptyString (seq 0 40) in
+         SSub [(String "x" tail, SReal (of_bits 0x3FF8000000000000) fone None None);
+               (String "x" (String "y" tail), SBool true)]
   end.
 
 Definition opt_is {A} (o : option A) : bool := match o with Some _ => true | None => false end.
@@ -152,6 +156,22 @@ Definition mon_C04 (o : cli_obs) : bool :=
   | None => true
   end.
 
+(** ** C06 through the binary: a child that fails (non-zero exit, killed by a signal, output that
+    is not a result) ends the run with an error, whatever it printed before *)
+Definition mon_C06 (o : cli_obs) : bool :=
+  negb (any_class o (fun k => match k with KFail => true | _ => false end)) || negb (exit_zero o).
+
+(** ** C11 through the binary: reading a guess never crashes; the spec's own initial value is
+    accepted (evaluations start); bad JSON and non-conforming guesses are rejected before any
+    evaluation *)
+Definition mon_C11 (o : cli_obs) : bool :=
+  negb (c_panicked o) && negb (c_timed_out o) &&
+  match c_guess o with
+  | GNone => true
+  | GInit => Nat.ltb 0 (n_started o) || N.eqb (c_n o) 0
+  | GBadJson | GNonConforming => negb (exit_zero o) && Nat.eqb (n_started o) 0 && Nat.eqb (c_stdout_lines o) 0
+  end.
+
 (** ** C07 *)
 Definition mon_C07 (o : cli_obs) : bool := negb (c_timed_out o) && Nat.eqb (c_survivors o) 0.
 
@@ -217,5 +237,5 @@ Definition judge_cli (o : cli_obs) : string :=
              end in
   ("CLI idx=" ++ N2s (c_idx o) ++ " acc=" ++ acc ++
    " C07=" ++ OpsCheck.b2s (mon_C07 o) ++ " C14=" ++ OpsCheck.b2s (mon_C14 o) ++ " C15=" ++ OpsCheck.b2s (mon_C15 o) ++
-   " C16=" ++ OpsCheck.b2s (mon_C16 o) ++ " C03=" ++ OpsCheck.b2s (mon_C03 o) ++ " C04=" ++ OpsCheck.b2s (mon_C04 o) ++ " code=" ++ (if exit_zero o then "0" else "nz") ++
+   " C16=" ++ OpsCheck.b2s (mon_C16 o) ++ " C03=" ++ OpsCheck.b2s (mon_C03 o) ++ " C04=" ++ OpsCheck.b2s (mon_C04 o) ++ " C06=" ++ OpsCheck.b2s (mon_C06 o) ++ " C11=" ++ OpsCheck.b2s (mon_C11 o) ++ " code=" ++ (if exit_zero o then "0" else "nz") ++
    " kids=" ++ N2s (N.of_nat (n_started o)) ++ " END").
